@@ -346,6 +346,12 @@ func (m *machine) binop(op token.Token, t types.Type, x, y value) value {
 		}
 		return fromTerm(mkNot(r.(*Term)))
 	}
+	if rc, ok := x.(*runeCount); ok {
+		return m.runeCountCmp(op, rc, y, false)
+	}
+	if rc, ok := y.(*runeCount); ok {
+		return m.runeCountCmp(op, rc, x, true)
+	}
 	if isSym(x) || isSym(y) {
 		return m.symBinop(op, t, x, y)
 	}
@@ -474,6 +480,12 @@ func (m *machine) binop(op token.Token, t types.Type, x, y value) value {
 }
 
 func (m *machine) eqv(t types.Type, x, y value) value {
+	if rc, ok := x.(*runeCount); ok {
+		return m.runeCountCmp(token.EQL, rc, y, false)
+	}
+	if rc, ok := y.(*runeCount); ok {
+		return m.runeCountCmp(token.EQL, rc, x, true)
+	}
 	// comparisons against nil for slices, maps, funcs
 	switch xv := x.(type) {
 	case []value:
@@ -539,7 +551,7 @@ func (m *machine) symBinop(op token.Token, t types.Type, x, y value) value {
 	case SStr:
 		switch op {
 		case token.ADD:
-			return fromTerm(mkConcat(xt, yt))
+			return fromTerm(m.foldTerm(mkConcat(xt, yt)))
 		}
 		panic(cut{fmt.Sprintf("string operator %s on symbolic operands", op)})
 	case SBool:
@@ -641,7 +653,7 @@ func (m *machine) callBuiltin(caller *frame, callpos token.Pos, fn *ssa.Builtin,
 		case *chanV:
 			return int64(len(x.buf))
 		case *runesV:
-			panic(cut{"len of lazily decoded rune slice"})
+			return &runeCount{s: x.s}
 		default:
 			panic(fmt.Sprintf("len: illegal operand: %T", x))
 		}
